@@ -256,7 +256,7 @@ func (runInfo *runInfoStruct) invokeMultiplyOperator(operator *ast.MultiplyOpera
 			runInfo.rv = reflect.ValueOf(strings.Repeat(toString(lhsV), int(count)))
 			return
 		}
-		if lhsV.Kind() == reflect.Float64 || runInfo.rv.Kind() == reflect.Float64 {
+		if lhsV.Kind() == reflect.Float64 || runInfo.rv.Kind() == reflect.Float64 || lhsV.Kind() == reflect.Float32 || runInfo.rv.Kind() == reflect.Float32 {
 			runInfo.rv = float64Value(toFloat64(lhsV) * toFloat64(runInfo.rv))
 			return
 		}
